@@ -87,3 +87,6 @@ package model
 //@   props C15
 //@   ensures[format] result == tsKey(its.Era, its.Lamport, its.Delimiter, its.CUID)
 //@   modifies nothing
+
+// ghost: the server sequence number (log position) under which an operation is stored
+//@ ghost field Operation.$sseq mathint
